@@ -201,6 +201,37 @@ pub fn spaces(tier: Tier) -> Vec<Space<'static>> {
             }
         }));
     }
+    // the three convenience functions on the TEXT of every D2 document against the selector (in their
+    // mode) on its encoding, for the whole path menu (including `$` referred to from inside a filter
+    // that follows member steps)
+    {
+        let d2 = crate::univ::d2();
+        sp.push(Space::new("text-form get_by_path / _first / _array vs the selector on the encoding: D2 x path menu", d2.len() as u64, move |i, acc| {
+            let v = &d2[i as usize];
+            if !v.all_finite() {
+                return;
+            }
+            let bytes = enc(v);
+            let text = refmodel::text::print(v);
+            for ps in crate::calls::PATH_MENU {
+                let Ok(ip) = jsonb::jsonpath::parse_json_path(ps.as_bytes()) else { continue };
+                for (name, mode, f) in [("get_by_path", Mode::Mixed, jsonb::get_by_path as Conv), ("get_by_path_first", Mode::First, jsonb::get_by_path_first as Conv), ("get_by_path_array", Mode::Array, jsonb::get_by_path_array as Conv)] {
+                    acc.eval();
+                    acc.nontrivial += 1;
+                    let want = select(&ip, mode, &bytes);
+                    let got = conv_call(f, text.as_bytes(), &ip);
+                    match (want, got) {
+                        (Ok(w), Ok((r, d, o))) => {
+                            if w.res.is_ok() != r.is_ok() || (r.is_ok() && (d != w.data || o != w.offsets)) {
+                                acc.vio(&format!("{}(text):differs-from-selector-on-the-encoding", name), || json!({"path": ps, "doc": text, "text_result": hex(&d), "selector_result": hex(&w.data)}));
+                            }
+                        }
+                        _ => acc.vio(&format!("{}(text):panic", name), || json!({"path": ps, "doc": text})),
+                    }
+                }
+            }
+        }));
+    }
     for ps in path_sets(tier) {
         // the relational check runs 12 evaluations per pair: use every path but thin the big sets' documents
         let n = ps.paths.len() as u64;
